@@ -976,7 +976,9 @@ func (g *GoFakeS3) completeMultipartUpload(bucket, object string, uploadID Uploa
 	}
 
 	var location string
-	if g.hostBucket {
+	if g.hostBucket && len(g.hostBucketBases) == 0 {
+		// (a list of host bases takes precedence over WithHostBucket when the
+		// request is routed, see Server())
 		location = fmt.Sprintf("%s://%s/%s", protocol, r.Host, object)
 	} else {
 		location = fmt.Sprintf("%s://%s/%s/%s", protocol, r.Host, bucket, object)
